@@ -253,6 +253,37 @@ def scenario_chain(rng, tier, sid):
     return cases
 
 
+def dispersive_leaf(ctx, lentil, rng):
+    """numeric leaf (outside the model): for trace / dispersion polynomials of order 1..3 the displacement returned by
+    DispersiveTilt.shift lies on the trace polynomial, at the arc length (measured from x = 0) that the dispersion
+    polynomial maps to the wavelength; incoming displacements are added"""
+    import scipy.integrate
+    n = 0
+    for _ in range(60):
+        to, do = rng.choice((1, 2, 3)), rng.choice((1, 2, 3))
+        trace = [rng.uniform(-0.4, 0.4) for _ in range(to)] + [rng.uniform(-1e-3, 1e-3)]
+        trace[-2] = rng.uniform(-1.0, 1.0)
+        lam0 = 600e-9
+        disp = [rng.uniform(-1e-9, 1e-9) for _ in range(do - 1)] + [rng.choice((-1, 1)) * rng.uniform(2e-6, 8e-6), lam0]
+        lam = lam0 + rng.uniform(-30e-9, 30e-9)
+        el = lentil.DispersiveTilt(trace=trace, dispersion=disp)
+        xs, ys = rng.uniform(-1e-3, 1e-3), rng.uniform(-1e-3, 1e-3)
+        x, y = el.shift(wavelength=lam, xs=xs, ys=ys)
+        x, y = float(np.squeeze(x)), float(np.squeeze(y))
+        x0, y0 = x - xs, y - ys
+        n += 1
+        sig = {'kind': 'dispersive-leaf', 'trace_order': to, 'dispersion_order': do}
+        if abs(y0 - np.polyval(trace, x0)) > 1e-9 * (1 + abs(y0)):
+            ctx.violation(dict(sig, clause='not-on-trace'), {'trace': trace, 'x': x0, 'y': y0, 'trace_at_x': float(np.polyval(trace, x0))}, case=None)
+            continue
+        arc = scipy.integrate.quad(lambda t: np.sqrt(1 + np.polyval(np.polyder(trace), t) ** 2), 0, x0)[0]
+        lam_back = float(np.polyval(disp, arc))
+        if abs(lam_back - lam) > 1e-6 * lam:
+            ctx.violation(dict(sig, clause='arc-length-does-not-map-to-wavelength'),
+                          {'trace': trace, 'dispersion': disp, 'wavelength': lam, 'wavelength_at_arc_length': lam_back}, case=None)
+    return n
+
+
 def sig_of(c, k, kind):
     return {'kind': kind, 'scenario': c['kind'], 'rep': c['rep'].split('-')[0] if c['rep'].startswith('order') else c['rep'],
             'nonsquare_px': c['nonsquare'], 'step_op': c['steps'][k]['op']}
@@ -306,7 +337,9 @@ def run(ctx):
                               {'rep1': c1['rep'], 'rep2': c2['rep'], 'displacement': c1['s'],
                                'max_abs_diff': float(np.abs(f1[both] - f2[both]).max())},
                               case={'case': c1, 'spec': spec[c1['id']]})
+    nleaf = dispersive_leaf(ctx, lentil, rng)
     ctx.traces += len(cases) - nthm
+    ctx.extra['higher_order_dispersive_leaf_cases'] = nleaf
     ctx.extra.update({'scenarios': nsc, 'shift_theorem_cases': nthm, 'cross_comparisons': ncross})
     ctx.sample({'case': next(c for c in cases if c['rep'] == 'fit-inplace'), 'note': 'spec observations omitted for brevity'}, maxn=1)
     ctx.sample({'case': next(c for c in cases if c['rep'].startswith('order'))}, maxn=2)
